@@ -20,7 +20,9 @@ BOUNDS = {
              'followed by 0..1 successor replies (3 symbolic digits + 1 '
              'symbolic char), wire cut at c<=1 arbitrary position (m<=2; '
              'with successor m<=1); multi-line texts of 2 lines from a '
-             'separator menu, 1 cut; raw: '
+             'separator menu, 1 cut; mixed: 2 lines with '
+             'independently symbolic codes, 1 cut (bad reply iff the codes '
+             'differ); raw: '
              'every byte string of w<=4 bytes through IO.recv_reply, cut at '
              '<=1 position, compared with a reference parser; ESC class: '
              'every code x every message of <=6 chars over ESC-shaped text',
@@ -51,6 +53,7 @@ def cells(tier):
         out.append({'kind': 'escpre', 'c': 0})
         out.append({'kind': 'multi', 'lines': 2, 'c': 1})
         out.append({'kind': 'succraw', 't': 2, 'c': 1})
+        out.append({'kind': 'mixed', 'lines': 2, 'c': 1})
         out.append({'kind': 'copy'})
     else:
         big = []
@@ -78,6 +81,8 @@ def cells(tier):
         out.append({'kind': 'escpre', 'c': 1})
         out.append({'kind': 'multi', 'lines': 3, 'c': 2})
         out.append({'kind': 'succraw', 't': 3, 'c': 1})
+        out.append({'kind': 'mixed', 'lines': 2, 'c': 2})
+        out.append({'kind': 'mixed', 'lines': 3, 'c': 1})
         out.append({'kind': 'copy'})
         out.sort(key=lambda x: -(x.get('m', x.get('w', 0)) * 4 +
                                  x.get('succ', 0) * 2 + 3 * x.get('c', 0)))
@@ -131,6 +136,8 @@ def run(cell):
         return run_rt(cell)
     if k == 'succraw':
         return run_succraw(cell)
+    if k == 'mixed':
+        return run_mixed(cell)
     if k == 'copy':
         return run_copy(cell)
     if k == 'raw':
@@ -359,6 +366,40 @@ def _raw(segs, inbuf):
     except api.StepBudget:
         return ('hang',)
     return ('ok', code, text, io.recv_buffer + sock.unread())
+
+
+def run_mixed(cell):
+    """a multi-line reply whose lines carry independently symbolic codes,
+    under every segmentation (also between two lines): parsed iff all codes
+    are equal, otherwise a bad reply - whatever the cut positions"""
+    n, c = cell['lines'], cell['c']
+    codes = [sym_code('k%d' % i) for i in range(n)]
+    wire = b''
+    texts = []
+    for i in range(n):
+        t = api.sstr('x%d' % i, 1, 0x21, 0x7E)
+        texts.append(t)
+        wire = wire + codes[i].encode('ascii') + \
+            (b' ' if i == n - 1 else b'-') + t.encode('ascii') + b'\r\n'
+    tail = b'250 next\r\n'
+    segs, pos = cut_stream(wire + tail, c)
+    inbuf = api.choice('inbuf', 2)
+    got = _raw(segs, inbuf)
+    api.observe('reply', list(got[:3]))
+    info = dict(lines=n, cuts=pos, inbuf=inbuf)
+    same = True
+    for i in range(1, n):
+        if not api.decide(codes[i] == codes[0]):
+            same = False
+    if not same:
+        api.prove(got[0] == 'bad', 'mixed-codes-accepted', status=got[0],
+                  **info)
+        return
+    if not api.prove(got[0] == 'ok', 'recv-failed', status=got[0], **info):
+        return
+    api.prove(got[1] == codes[0], 'code-mismatch', **info)
+    api.prove(got[2] == api.join('\r\n', texts), 'message-mismatch', **info)
+    api.prove(got[3] == tail, 'consumption-mismatch', **info)
 
 
 def run_succraw(cell):
